@@ -263,7 +263,7 @@ def _fragment_cases(ctx, checks, descr):
     except Exception:  # noqa: BLE001 - outside the grammar: only the Coq/SQLite comparison remains
         ui_ast = None
     fstates = list(range(10, 20))
-    n = ctx.scale(150, 1500)
+    n = ctx.scale(100, 1500)
     for _ in range(n):
         fs, det, dyn = rng.choice(fstates), rng.randint(0, 1), rng.randint(0, 1)
         sql = (f"SELECT ({UNAVAILABLE_INPUT_WHERE}) FROM (SELECT {fs} AS state) AS input_file, "
@@ -428,6 +428,8 @@ def _projection_cases(ctx, hs):
     for hi, h in enumerate(hs):
         if "family" in h and not ctx.thorough():
             continue    # quick tier: the scripted families are judged by the tick correspondence and the oracles
+        if not ctx.thorough() and "scenario" not in h and hi % 2 == 1:
+            continue    # quick tier: every second random history (all of them in the thorough tier)
         for ei, ev in enumerate(h["events"]):
             if "scenario" in h and "rejected" in ev:
                 ctx.add_failure("harness", "scenario", "scenario:rejected-step",
@@ -437,6 +439,14 @@ def _projection_cases(ctx, hs):
                 # a rejected request is rolled back (flags included): nothing is projected.  Whether the
                 # transaction model rejects the same requests is C09's correspondence (targets, which
                 # cause some of the rejections here, are not part of that model)
+                continue
+            if ev["op"] == "revert" and ev.get("before") is not None:
+                # finalize.revert_optional_steps is not an operation of Graph.v's alphabet: FlagInv is proved for it
+                # (C11_revert_optional_keeps_flag_invariant); here the certificate of reach_revert
+                checks.append(SG.revert_case(ev["before"], ev["after"], M.to_coq))
+                descr.append(("revert-certificate", hi, ei))
+                ctx.count("projection.revert-certificate")
+                ctx.case(("revert-cert", repr(ev["before"])), True)
                 continue
             before, ops = _tx_of(ev)
             if not ops:
@@ -461,6 +471,13 @@ def _projection_cases(ctx, hs):
             continue
         seen.add(sig)
         ev = hs[hi]["events"][ei]
+        if kind == "revert-certificate":
+            ctx.add_failure("correspondence", "projection:" + kind, sig,
+                            f"revert_optional_steps (event {ei} of history {hi}): the snapshot before or the model's result is "
+                            "not coupled to a stored workflow satisfying C09's invariant, or file node ids are not unique "
+                            "(hypotheses of reach_revert / C11_revert_optional_keeps_flag_invariant)",
+                            witness={"history": hi, "event": ei, "op": "revert", "before": ev["before"], "after": ev["after"]})
+            continue
         before, ops = _tx_of(ev)
         vals = common.eval_terms(ctx, "projdiag", M.COQ_HEADER + SG.COQ_HEADER,
                                  SG.tx_diag(ev, before, ev["after"], ops, M.to_coq))
